@@ -413,3 +413,5 @@ pub fn run(ctx: &Ctx) -> (Acc, String, bool) {
     );
     (acc, rule, false)
 }
+
+pub const ASSUMPTIONS: &[&str] = &["symbol keys are distinct within a value (the property quantifies over sets of distinct symbols)", "apply on a concatenation is not treated as a lookup (not a defined combination); fractional indexes are outside the property"];
